@@ -33,13 +33,15 @@ def ppem (c : BConfig) (pixelHeight : Int) : Except BErr Int :=
   if c.ascender - c.descender = 0 then .error .zeroDiv
   else .ok (roundHalfEven ((c.upem : Q) * pixelHeight / ((c.ascender - c.descender : Int) : Q)))
 
-/-- `_width_in_pixels(config, image)` for an image of `w × h` pixels -/
+/-- `_width_in_pixels(config, image)` for an image of `w × h` pixels (checks in the order the code performs them:
+the division by the pixel height, the assertion, the division by the em height) -/
 def widthInPixels (c : BConfig) (w h : Int) : Except BErr Int :=
   let funits : Q := ((c.ascender - c.descender : Int) : Q)
-  if h = 0 ∨ funits = 0 then .error .zeroDiv
+  if h = 0 then .error .zeroDiv
   else
     let widthFunits := qmax (c.width : Q) ((w : Q) * funits / h)
     if ¬ widthFunits > 0 then .error .assertFail
+    else if funits = 0 then .error .zeroDiv
     else .ok (roundHalfEven (widthFunits * h / funits))
 
 structure BMetrics where
